@@ -113,6 +113,8 @@ func verifLAnnounce(s *LocalStore, g *verifLGhost, h, p int, now int64) {
 }
 
 func verifLSetup() (*LocalStore, *clock.Mock, int64, int64) {
+	// small, arithmetic-heavy queries: decided faster (and more robustly on
+	// modified trees) by z3's bit-vector tactic than by the incremental core
 	verif.Option("solver_bv_tactic", 1)
 	ttl := verif.Int64("ttl")
 	verif.Assume(ttl >= 1)
